@@ -39,10 +39,12 @@ structure Site where
   line : Nat
   /-- number of sites of the same fn with the same kind and expression text -/
   n : Nat
-  deriving Repr, Inhabited
+  deriving Repr, Inhabited, DecidableEq
 
 structure FnGroup where
   fn : String
+  /-- fingerprint of the token text of the fn (signature + body; comments and formatting do not count) -/
+  body : Nat
   sites : List Site
   deriving Repr, Inhabited
 
@@ -120,6 +122,8 @@ structure Discharge where
 
 structure FnTable where
   fn : String
+  /-- fingerprint of the fn text the justifications below were written against (0: not pinned) -/
+  body : Nat
   recs : List Discharge
   deriving Repr, Inhabited
 
@@ -168,17 +172,6 @@ def undischarged (sites : List FileGroup) (table : List FileTable) (bulk : List 
     | some _ => none
     | none => some (file, fn, s)
 
-/-- Boolean form of `undischarged … = []` (same traversal, no list built) -/
-def allDischarged (sites : List FileGroup) (table : List FileTable) (bulk : List Discharge) : Bool :=
-  sites.all fun fg =>
-    let ft := fileRecs table fg.file
-    fg.fns.all fun g =>
-      let recs := fnRecs ft g.fn
-      g.sites.all fun s =>
-        match findRec recs s with
-        | some _ => true
-        | none => (findRec bulk s).isSome
-
 /-- the known-finding keys referenced by records that match at least one existing site: (key, file, fn, expr) -/
 def knownFindingKeys (sites : List FileGroup) (table : List FileTable) (bulk : List Discharge) :
     List (String × String × String × String) :=
@@ -186,6 +179,11 @@ def knownFindingKeys (sites : List FileGroup) (table : List FileTable) (bulk : L
     match r with
     | some d => d.reason.findingKey?.map fun k => (k, file, fn, s.expr)
     | none => none
+
+/-- every known-finding key that occurs in the table or the bulk rules, whether or not a site still matches it -/
+def tableFindingKeys (table : List FileTable) (bulk : List Discharge) : List String :=
+  (table.flatMap fun ft => ft.fns.flatMap fun t => t.recs.filterMap fun r => r.reason.findingKey?) ++
+    bulk.filterMap fun r => r.reason.findingKey?
 
 /-- records of the table that match no site any more (hygiene; not a proof obligation): (file, fn, record) -/
 def staleRecords (sites : List FileGroup) (table : List FileTable) : List (String × String × Discharge) :=
@@ -198,6 +196,16 @@ def staleRecords (sites : List FileGroup) (table : List FileTable) : List (Strin
         | some g => g.sites
         | none => []
       t.recs.filterMap fun r => if ss.any (fun s => r.m.matchesSite s) then none else some (ft.file, t.fn, r)
+
+/-- fns whose text changed since their records were reviewed (pinned fingerprint differs): (file, fn).  The sites
+may all still be matched; the justifications (guards quoted from the fn) have to be re-read. -/
+def changedBodies (sites : List FileGroup) (table : List FileTable) : List (String × String) :=
+  sites.flatMap fun fg =>
+    let ft := fileRecs table fg.file
+    fg.fns.filterMap fun g =>
+      match ft.find? (fun t => t.fn == g.fn) with
+      | some t => if t.body == 0 || t.body == g.body then none else some (fg.file, g.fn)
+      | none => none
 
 def allSites (sites : List FileGroup) : List Site :=
   sites.flatMap fun fg => fg.fns.flatMap fun g => g.sites
